@@ -31,7 +31,8 @@ verbatim except for the rewrites R1..R8 below, every application of which is rep
   R4  `Box<[T]>` in struct fields -> `Vec<T>`
   R8  `for x in E.iter_mut() {B}` -> index loop over E with `*x` replaced by `E[__k]`
   R10 `let it = E.iter().skip(S);` ... `for x in it.take(T) {B}` -> index loop visiting E[S], E[S+1], ... while in range,
-      at most T elements (std slice-iterator semantics, assumed)
+      at most T elements (std slice-iterator semantics, assumed); zip form `A.iter().zip(B.iter().skip(Z)).skip(S)`
+      pairs A[k] with B[k+Z] while both are in range
   R11 `E.filter(|_| c)` (Option, c a boolean variable) -> `match (E, c) { (v, true) => v, (_, false) => None }`
 Anything else Verus cannot parse is reported by Verus itself and makes the unit *undecided* (exit 2).
 """
@@ -284,10 +285,16 @@ def rewrite_for_loops(body, notes):
 def rewrite_skip_take(body, notes):
     """R10: `let NAME = E.iter().skip(S);` ... `for VAR in NAME.take(T) {B}`  ->  index loop over E that visits the
     elements S, S+1, ... while in range, at most T of them (the std semantics of slice::iter().skip(S).take(T))."""
-    m = find_code(body, r"let\s+(\w+)\s*=\s*([\w.]+)\s*\.iter\(\)\s*\.skip\(")
+    m = find_code(body, r"let\s+(\w+)\s*=\s*([\w.\s]+?)\s*\.iter\(\)\s*\.skip\(")
+    zipm = find_code(body, r"let\s+(\w+)\s*=\s*([\w.\s]+?)\s*\.iter\(\)\s*\.zip\(\s*([\w.\s]+?)\s*\.iter\(\)\s*\.skip\((\d+)\)\s*\)\s*\.skip\(")
+    coll2, off2 = None, 0
+    if zipm and (not m or zipm.start() <= m.start()):
+        # R10 (zip form): `A.iter().zip(B.iter().skip(Z)).skip(S)` pairs A[k] with B[k + Z]
+        m = zipm
+        coll2, off2 = re.sub(r"\s+", "", zipm.group(3)), int(zipm.group(4))
     if not m:
         return body
-    name, coll = m.group(1), m.group(2)
+    name, coll = m.group(1), re.sub(r"\s+", "", m.group(2))
     # skip argument: up to the matching ')' followed by ';'
     j = m.end()
     depth = 1
@@ -302,10 +309,16 @@ def rewrite_skip_take(body, notes):
     if semi < 0 or body[j:semi].strip():
         raise ExtractError("unsupported construct: iterator chain after skip()")
     body = body[:m.start()] + "let __%s_skip: usize = %s;" % (name, skip_expr) + body[semi + 1:]
-    f = find_code(body, r"\bfor\s+(\w+)\s+in\s+%s\s*\.take\(" % re.escape(name))
+    f = find_code(body, r"\bfor\s+(\w+|\(\s*\w+\s*,\s*\w+\s*\))\s+in\s+%s\s*\.take\(" % re.escape(name))
     if not f:
         raise ExtractError("lost anchor: `for .. in %s.take(..)`" % name)
     var = f.group(1)
+    var2 = None
+    if coll2 is not None:
+        pm = re.match(r"\(\s*(\w+)\s*,\s*(\w+)\s*\)", var)
+        if not pm:
+            raise ExtractError("unsupported construct: zip loop without a pair pattern")
+        var, var2 = pm.group(1), pm.group(2)
     o = _body_open(body, f.end() - 1)      # scan from the `(` of take(
     take_expr = body[f.end():o].strip()
     if not take_expr.endswith(")"):
@@ -317,11 +330,17 @@ def rewrite_skip_take(body, notes):
         raise ExtractError("unsupported construct: continue inside skip/take loop")
     ls = body.rfind("\n", 0, f.start()) + 1
     indent = re.match(r"[ \t]*", body[ls:]).group(0)
+    cond2 = ""
+    bind2 = ""
+    if coll2 is not None:
+        cond2 = " && __%s_k < %s.len() - %d" % (name, coll2, off2) if off2 else " && __%s_k < %s.len()" % (name, coll2)
+        bind2 = "\n%s    let %s = &%s[__%s_k + %d];" % (indent, var2, coll2, name, off2)
+        cond2 = " && %s.len() >= %d" % (coll2, off2) + cond2
     new = ("let mut __%(n)s_k: usize = __%(n)s_skip;\n%(i)slet __%(n)s_take: usize = %(t)s;\n%(i)slet mut __%(n)s_c: usize = 0;\n"
-           "%(i)swhile __%(n)s_c < __%(n)s_take && __%(n)s_k < %(c)s.len() {\n%(i)s    let %(v)s = &%(c)s[__%(n)s_k];%(b)s\n"
-           "%(i)s    __%(n)s_k += 1;\n%(i)s    __%(n)s_c += 1;\n%(i)s}") % dict(n=name, i=indent, t=take_expr, c=coll, v=var, b=inner.rstrip())
-    notes.append("R10: `let %s = %s.iter().skip(%s)` + `for %s in %s.take(%s)` -> index loop (std slice-iterator semantics assumed)" % (
-        name, coll, skip_expr, var, name, take_expr))
+           "%(i)swhile __%(n)s_c < __%(n)s_take && __%(n)s_k < %(c)s.len()%(c2)s {\n%(i)s    let %(v)s = &%(c)s[__%(n)s_k];%(b2)s%(b)s\n"
+           "%(i)s    __%(n)s_k += 1;\n%(i)s    __%(n)s_c += 1;\n%(i)s}") % dict(n=name, i=indent, t=take_expr, c=coll, v=var, b=inner.rstrip(), c2=cond2, b2=bind2)
+    notes.append("R10: `let %s = %s.iter()%s.skip(%s)` + `for .. in %s.take(%s)` -> index loop (std slice-iterator semantics assumed)" % (
+        name, coll, (".zip(%s.iter().skip(%d))" % (coll2, off2)) if coll2 else "", skip_expr, name, take_expr))
     return body[:f.start()] + new + body[e + 1:]
 
 
